@@ -19,7 +19,7 @@ import (
 func init() {
 	Props["C15"] = &harness.Prop{
 		ID:             "C15",
-		Rule:           "histories: alphabet of 25 inputs (incl. four MSM4/MSM7 frames whose cells and satellites carry the reserved 'invalid' values, three MSM frames that carry a time error from the handler and are also too short to decode) (1005, 1006, MSM4 and MSM7 of GPS, Galileo, GLONASS and BeiDou with cells, four MSM messages whose cell masks have the same value and length but the shapes 2x3, 3x2, 1x6 and 6x1, 1230, an unknown type, non-RTCM text, a CRC-broken frame); every sequence of length <=3 (quick) / <=4 (thorough) through ONE handler at both log levels; each element is decoded (Analyse) and displayed twice; oracle: decoded structure deep-equal and text (without the MSM time lines) equal to those of a fresh handler, second and third display identical, decoded fields after display deep-equal to those of an undisplayed twin, raw bytes unchanged, and every message decoded earlier in the history and still held is displayed again and deep-compared after each later frame (nothing may be shared between messages); value copies of a delivered message: what consumer A does with its copy (String, Analyse, field assignments) leaves consumer B's copy deep-equal to a pristine one, also when A displays first at a different log level or after the message was analysed. concurrency: two (thorough: also three) threads decoding and displaying frames on separate handlers and on value copies of one message, with scheduling points at every function and loop entry of rtcm/handler, rtcm/utils, rtcm/header and the six MSM and two station packages; every schedule with <=1 (quick) / <=2 (thorough) preemptions; oracle: every result equals the sequential baseline. Non-trivial = histories of length >=2 / distinct schedule traces",
+		Rule:           "histories: alphabet of 29 inputs (incl. two pairs of MSM frames with the same type, length and CRC value but different contents, four MSM4/MSM7 frames whose cells and satellites carry the reserved 'invalid' values, three MSM frames that carry a time error from the handler and are also too short to decode) (1005, 1006, MSM4 and MSM7 of GPS, Galileo, GLONASS and BeiDou with cells, four MSM messages whose cell masks have the same value and length but the shapes 2x3, 3x2, 1x6 and 6x1, 1230, an unknown type, non-RTCM text, a CRC-broken frame); every sequence of length <=3 (quick) / <=4 (thorough) through ONE handler at both log levels; each element is decoded (Analyse) and displayed twice; oracle: decoded structure deep-equal and text (without the MSM time lines) equal to those of a fresh handler, second and third display identical, decoded fields after display deep-equal to those of an undisplayed twin, raw bytes unchanged, and every message decoded earlier in the history and still held is displayed again and deep-compared after each later frame (nothing may be shared between messages); value copies of a delivered message: what consumer A does with its copy (String, Analyse, field assignments) leaves consumer B's copy deep-equal to a pristine one, also when A displays first at a different log level or after the message was analysed; non-RTCM messages of 1030..65537 bytes delivered by HandleMessages, displayed three times while a second consumer holds a copy. concurrency: two (thorough: also three) threads decoding and displaying frames on separate handlers and on value copies of one message, with scheduling points at every function and loop entry of rtcm/handler, rtcm/utils, rtcm/header and the six MSM and two station packages; every schedule with <=1 (quick) / <=2 (thorough) preemptions; oracle: every result equals the sequential baseline. Non-trivial = histories of length >=2 / distinct schedule traces",
 		Assumptions:    []string{"interleavings inside unsynchronised code are explored at function/loop-entry granularity; 'no data race' at the memory-model level is outside a cooperative scheduler and only touched by the auxiliary -race pass", "the two MSM time lines ('Time ...', 'Start of ... week ...') are removed before comparing texts, as the statement excludes them"},
 		Pre:            c15Histories,
 		Scenarios:      c15Scenarios,
@@ -75,6 +75,18 @@ func c15Alphabet() []c15Input {
 		sats := []ref.MSMSat{{Whole: 75, Ext: 3, Frac: 512, Rate: -77}, {Whole: 255, Ext: 15, Frac: 7, Rate: 12}, {Whole: 81, Ext: 0, Frac: 0, Rate: -(1 << 13)}}
 		add(fmt.Sprintf("%d-invalid-range-delta", t), ref.MSMFrame(h, sats, []ref.MSMSig{{RangeDelta: rd, PhaseDelta: 9, Lock: 1, CNR: 33, RateDelta: 5}, {RangeDelta: 4, PhaseDelta: 2, Lock: 2, CNR: 34, RateDelta: 6}, {RangeDelta: rd, PhaseDelta: -3, Lock: 3, CNR: 35, RateDelta: -7}}, 0))
 		add(fmt.Sprintf("%d-invalid-phase-and-rate-delta", t), ref.MSMFrame(h, sats, []ref.MSMSig{{RangeDelta: 11, PhaseDelta: pd, Lock: 1, CNR: 33, RateDelta: -(1 << 14)}, {RangeDelta: 4, PhaseDelta: pd, Lock: 2, CNR: 34, RateDelta: 6}, {RangeDelta: -12, PhaseDelta: -3, Lock: 3, CNR: 35, RateDelta: -(1 << 14)}}, 0))
+	}
+	// two messages of the same type, length and CRC value but different contents
+	// (the three padding bytes are solved for the CRC): whatever is remembered
+	// about a frame must be keyed on all of it
+	for k, t := range []int{1077, 1074} {
+		for v := 0; v < 2; v++ {
+			h := &ref.MSMHeader{Type: t, Station: 6, Timestamp: 250000, SatMask: 0x9 << 60, SigMask: 0x5 << 28, CellMask: []bool{true, true, true, false}}
+			sats := []ref.MSMSat{{Whole: 70 + uint(5*v), Ext: 2, Frac: 300 + uint(v), Rate: -40}, {Whole: 82, Ext: 1, Frac: 5, Rate: int64(9 + v)}}
+			sigs := []ref.MSMSig{{RangeDelta: int64(100 + 1000*v), PhaseDelta: int64(-200 - 3000*v), Lock: 3, CNR: 40, RateDelta: 7}, {RangeDelta: -5, PhaseDelta: 6, Lock: 1, CNR: 30, RateDelta: -9}, {RangeDelta: 1, PhaseDelta: int64(2 + v), Lock: 2, CNR: 20, RateDelta: 3}}
+			p, _ := ref.EncodeMSM(h, sats, sigs, 3)
+			add(fmt.Sprintf("%d-same-crc-%c", t, 'A'+v), ref.PayloadFrameWithCRC(p, 0x5A5A5A+uint32(k)))
+		}
 	}
 	// frames that carry an error from the handler AND fail to decode
 	add("1077-short-illegal-ts", ref.TypedFrame(1077, 9, func(i int) byte { return 0xFF }))
@@ -298,6 +310,51 @@ func c15Histories(r *ev.Run) {
 					fail("consumer-copy-display-differs", lvl, []string{in.name}, "B's display after A used its copy")
 				}
 				r.Count(1, 0, 4, 1)
+			}()
+		}
+	}
+	// very long non-RTCM messages (a text feed without a 0xD3 byte is delivered in
+	// one piece): displayed three times by one consumer while another holds a copy
+	for _, n := range []int{1030, 4096, 16383, 16384, 16385, 20000, 65537} {
+		for _, lvl := range []slog.Level{slog.LevelDebug, slog.LevelInfo} {
+			junk := make([]byte, n)
+			for i := range junk {
+				junk[i] = "$GPGGA,123519,4807.038,N,01131.000,E,1,08,0.9,545.4,M,46.9,M,,*47\r\n"[i%67]
+			}
+			in := make(chan byte, n+40)
+			for _, b := range junk {
+				in <- b
+			}
+			for _, b := range ref.TypedFrame(1005, 19, nil) {
+				in <- b
+			}
+			close(in)
+			out := make(chan handler.Message, 8)
+			func() {
+				defer func() {
+					if p := recover(); p != nil {
+						fail("panic handling a long non-RTCM message: "+firstLine(fmt.Sprint(p)), lvl, []string{fmt.Sprintf("non-rtcm-%d", n)}, "")
+					}
+				}()
+				handler.New(T0, lvl).HandleMessages(in, out)
+				var msgs []handler.Message
+				for m := range out {
+					msgs = append(msgs, m)
+				}
+				if len(msgs) != 2 || !bytes.Equal(msgs[0].RawData, junk) {
+					return // framing is C02/C03's business
+				}
+				a, b := msgs[0], msgs[0]
+				t1, t2, t3 := a.String(), a.String(), a.String()
+				switch {
+				case t1 != t2 || t2 != t3:
+					fail("repeated display differs from the first", lvl, []string{fmt.Sprintf("non-rtcm-%d", n)}, "long message")
+				case !bytes.Equal(a.RawData, junk) || !bytes.Equal(b.RawData, junk):
+					fail("raw bytes modified by decoding or display", lvl, []string{fmt.Sprintf("non-rtcm-%d", n)}, "long message, both consumers' copies share the bytes")
+				case b.String() != t1:
+					fail("consumer-copy-display-differs", lvl, []string{fmt.Sprintf("non-rtcm-%d", n)}, "long message")
+				}
+				r.Count(1, 0, 5, 1)
 			}()
 		}
 	}
